@@ -140,7 +140,7 @@ Inductive slmode := SlLstat | SlStat | SlEval.
 Definition slmode_eqb (a b : slmode) : bool :=
   match a, b with SlLstat, SlLstat | SlStat, SlStat | SlEval, SlEval => true | _, _ => false end.
 
-Definition slCountMax : nat := 64.
+Definition slCountMax : nat := 40.
 
 Record sres := {
   sr_parent : option nat;     (* nil only when a Windows volume does not exist *)
